@@ -70,7 +70,7 @@ class Chains:
         ops = ["shift_common", "shift_common_v", "append", "update", "filtered", "copy", "reindexed_map",
                "column_stack", "set_update", "get", "items", "common_rowids", "abscissae", "eq", "to_array",
                "append", "update", "filtered", "reindexed_map"]
-        ops += ["extra"]
+        ops += ["extra", "sliced_noargs"]
         if not big:
             ops += ["reindexed_default", "sparsity", "cube_shape"]
         if nd == 2:
@@ -174,6 +174,9 @@ class Chains:
                 k = rnd.randint(1, ext)
                 orders.append(rnd.sample(range(ext), k))
         return self.rec.sliced(idx, orders)
+
+    def op_sliced_noargs(self, idx, U):
+        return self.rec.sliced(idx, [])
 
     def op_slices1d(self, idx, U):
         self.rec.slices1d(idx)
